@@ -55,10 +55,14 @@ Fixpoint table_find_system (t : list fs_row) (k v : str) : fsres :=
       else table_find_system r k v
   end.
 
-(* get_data: raises for the listed ids, otherwise returns a tree whose tag is "data-of-" ++ id *)
+(* get_data: raises for the ids in [raising]; returns an empty tree for the ids in [empties] (the template then sees
+   data.get('tag') = None, observed as "?None"); otherwise returns a tree whose tag is "data-of-" ++ id *)
 Definition DATA_OF : str := bytes_of_string "data-of-".
-Definition table_get_data (raising : list str) (i : str) : option str :=
-  if existsb (eqb_str i) raising then None else Some (DATA_OF ++ i).
+Definition DATA_EMPTY : str := bytes_of_string "?None".
+Definition table_get_data (raising empties : list str) (i : str) : option str :=
+  if existsb (eqb_str i) raising then None
+  else if existsb (eqb_str i) empties then Some DATA_EMPTY
+  else Some (DATA_OF ++ i).
 
 Definition sxCall (c : call) : sx :=
   match c with
